@@ -13,7 +13,8 @@
    variants (NEG) to show that the properties distinguish them.                                          *)
 EXTENDS Merge, Json
 
-CONSTANTS NFonts, Family, BugSet, IdfSet, IgnSet
+CONSTANTS NFontsSet, Family, BugSet, IdfSet, IgnSet, ShapeK
+VARIABLE target        \* the number of fonts of this behaviour's list
 
 Sub1LK(a, b) == [ty |-> "sub1", flag |-> 0, mfs |-> 0, st |-> << [m |-> << <<a, b>> >>] >>]
 CtxLK(a, t) == [ty |-> "ctx", flag |-> 0, mfs |-> 0,
@@ -35,33 +36,41 @@ N1 == <<".notdef", "A", "B">>
 N2 == <<".notdef", "A", "A.1">>
 N3 == <<".notdef", "B", "A">>
 N4 == <<".notdef", "A">>
-(* the family depends on the configuration (Family) -- larger for pairs than for triples / quadruples *)
+(* the family depends on the configuration and on the length of the list -- larger for pairs than for triples /
+   quadruples; Family = "quick" / "gen" select by list length (and use the small family for the idf = TRUE and the
+   wrong-variant behaviours), any other value names a family directly *)
+Fam == CASE Family = "quick" -> IF idf \/ bug # "none" THEN "negfam" ELSE IF target = 2 THEN "pairs" ELSE "triples"
+         [] Family = "thorough" -> IF idf \/ bug # "none" THEN "small" ELSE IF target = 2 THEN "full" ELSE "negfam"
+         [] Family = "gen" -> IF target = 2 THEN "gen2" ELSE IF target = 3 THEN "gen3" ELSE "gen4"
+         [] Family = "genfull" -> IF target = 2 THEN "gen2full" ELSE IF target = 3 THEN "gen3" ELSE "gen4"
+         [] OTHER -> Family
 NameChoices ==
-  CASE Family = "full" -> {N1, N2, N3, N4}
-    [] Family = "pairs" -> {N1, N2, N4}
-    [] Family \in {"gen3", "gen4"} -> {N1}
+  CASE Fam = "full" -> {N1, N2, N3, N4}
+    [] Fam = "pairs" -> {N1, N2}
+    [] Fam \in {"gen3", "gen4", "triples"} -> {N1}
     [] OTHER -> {N1, N2}
 (* character -> glyph (0 = unsupported) for characters 1..5; character 3 is the one the configurations may
    declare default-ignorable (IgnSet) *)
 CmapChoices ==
-  CASE Family = "full"  -> {<<a, b, c, 0, 0>> : a \in {0, 2}, b \in {0, 2, 3}, c \in {0, 3}} \ {<<0, 0, 0, 0, 0>>}
-    [] Family \in {"pairs", "gen2full"} ->
+  CASE Fam = "full"  -> {<<a, b, c, 0, 0>> : a \in {0, 2}, b \in {0, 2, 3}, c \in {0, 3}} \ {<<0, 0, 0, 0, 0>>}
+    [] Fam \in {"pairs", "gen2full"} ->
          {<<2, 0, 0, 0, 0>>, <<0, 2, 0, 0, 0>>, <<2, 3, 0, 0, 0>>, <<2, 2, 0, 0, 0>>, <<0, 3, 3, 0, 0>>}
-    [] Family = "gen4" -> {<<2, 0, 0, 0, 0>>, <<0, 2, 0, 0, 0>>, <<0, 0, 0, 2, 0>>, <<0, 0, 0, 0, 2>>}
+    [] Fam = "gen4" -> {<<2, 0, 0, 0, 0>>, <<0, 2, 0, 0, 0>>, <<0, 0, 0, 2, 0>>, <<0, 0, 0, 0, 2>>}
     [] OTHER -> {<<2, 0, 0, 0, 0>>, <<0, 2, 0, 0, 0>>, <<2, 3, 0, 0, 0>>}
 ShapeChoices ==
-  CASE Family \in {"triples", "gen3"} -> {<<1, 500>>, <<1, 600>>}
-    [] Family = "gen4" -> {<<1, 500>>}
+  CASE Fam \in {"triples", "gen3", "negfam"} -> {<<1, 500>>, <<1, 600>>}
+    [] Fam = "gen4" -> {<<1, 500>>}
     [] OTHER -> {<<1, 500>>, <<1, 600>>, <<2, 500>>}
 KitChoices ==
-  CASE Family = "full" -> {<<"none", "DFLT">>} \cup ({"single", "chain", "unused", "locl", "pos", "both"} \X {"DFLT", "latn"})
+  CASE Fam = "full" -> {<<"none", "DFLT">>} \cup ({"single", "chain", "unused", "locl", "pos", "both"} \X {"DFLT", "latn"})
                           \cup {<<"single", "grek">>, <<"both", "grek">>}
-    [] Family \in {"pairs", "gen2full"} ->
+    [] Fam = "gen2full" ->
          {<<"none", "DFLT">>, <<"single", "latn">>, <<"chain", "latn">>, <<"chain", "DFLT">>,
           <<"unused", "DFLT">>, <<"locl", "latn">>, <<"both", "grek">>}
-    [] Family = "gen2" -> {<<"none", "DFLT">>, <<"chain", "DFLT">>, <<"unused", "latn">>, <<"locl", "latn">>, <<"both", "grek">>}
-    [] Family = "small" -> {<<"none", "DFLT">>, <<"single", "latn">>, <<"chain", "DFLT">>, <<"unused", "grek">>, <<"locl", "latn">>}
-    [] Family = "gen4" -> {<<"none", "DFLT">>, <<"chain", "latn">>}
+    [] Fam = "pairs" -> {<<"none", "DFLT">>, <<"chain", "latn">>, <<"unused", "DFLT">>, <<"locl", "latn">>, <<"both", "grek">>}
+    [] Fam = "gen2" -> {<<"none", "DFLT">>, <<"chain", "DFLT">>, <<"unused", "latn">>, <<"locl", "latn">>, <<"both", "grek">>}
+    [] Fam = "small" -> {<<"none", "DFLT">>, <<"single", "latn">>, <<"chain", "DFLT">>, <<"unused", "grek">>, <<"locl", "latn">>}
+    [] Fam = "gen4" -> {<<"none", "DFLT">>, <<"chain", "latn">>}
     [] OTHER -> {<<"none", "DFLT">>, <<"chain", "latn">>}
 
 MkFont(nm, cm, sh, ks) ==
@@ -79,23 +88,26 @@ MkFont(nm, cm, sh, ks) ==
 
 Init ==
   /\ fonts = <<>> /\ pc = "build"
+  /\ target \in NFontsSet
   /\ bug \in BugSet /\ idf \in IdfSet /\ ign \in IgnSet
+  /\ (idf \/ bug # "none") => target = 2           \* identification and the wrong variants are explored on pairs
+  /\ bug # "none" => ~idf
   /\ orders = <<>> /\ mcmap = EmptyFn /\ dups = <<>> /\ merged = [names |-> <<>>]
 
 AddFont ==
-  /\ pc = "build" /\ Len(fonts) < NFonts
+  /\ pc = "build" /\ Len(fonts) < target
   /\ \E nm \in NameChoices :
        \E cm \in CmapChoices : \E sh \in ShapeChoices :
          \E ks \in (IF Len(nm) < 3 THEN {<<"none", "DFLT">>} ELSE KitChoices) :
             /\ Len(MkFont(nm, cm, sh, ks).cmap) > 0
             /\ fonts' = Append(fonts, MkFont(nm, cm, sh, ks))
-  /\ UNCHANGED <<pc, bug, idf, ign, orders, mcmap, dups, merged>>
+  /\ UNCHANGED <<pc, bug, idf, ign, orders, mcmap, dups, merged, target>>
 Start ==
-  /\ pc = "build" /\ Len(fonts) = NFonts
+  /\ pc = "build" /\ Len(fonts) = target
   /\ pc' = "order"
-  /\ UNCHANGED <<fonts, bug, idf, ign, orders, mcmap, dups, merged>>
+  /\ UNCHANGED <<fonts, bug, idf, ign, orders, mcmap, dups, merged, target>>
 
-Next == AddFont \/ Start \/ MergeNext
+Next == AddFont \/ Start \/ (MergeNext /\ UNCHANGED target)
 GenNext == AddFont \/ Start
 Emit == pc = "order" => PrintT(<<"GEN", ToJson(fonts)>>)
 
@@ -104,14 +116,14 @@ Done == pc = "done"
 Props ==
   /\ WellFormedMerged(merged)
   /\ FirstWins(fonts, merged) /\ UniqueNames(merged) /\ Totals(fonts, merged) /\ GlyphsKept(fonts, merged)
-  /\ DuplicateRule(fonts, merged, ign) /\ DisjointShaping(fonts, merged, 2)
+  /\ DuplicateRule(fonts, merged, ign) /\ DisjointShaping(fonts, merged, ShapeK)
 
 Inv_Family == \A i \in MIdx(fonts) : WellFormedFont(fonts[i])
 Inv_FirstWins == (Done /\ bug = "none") => FirstWins(fonts, merged)
 Inv_UniqueNames == (Done /\ bug = "none") => UniqueNames(merged)
 Inv_Totals == (Done /\ bug = "none") => Totals(fonts, merged) /\ GlyphsKept(fonts, merged) /\ WellFormedMerged(merged)
 Inv_DuplicateRule == (Done /\ bug = "none") => DuplicateRule(fonts, merged, ign)
-Inv_DisjointShaping == (Done /\ bug = "none") => DisjointShaping(fonts, merged, 2)
+Inv_DisjointShaping == (Done /\ bug = "none") => DisjointShaping(fonts, merged, ShapeK)
 (* the relational form of the naming stage (used by the judge) characterises the stage *)
 Inv_OrderRule == (pc \notin {"build", "order"} /\ bug = "none") => OrderRuleOK(FlatNames(fonts), MFlat(orders, 1))
 (* the machine computes what the one-shot operator computes *)
